@@ -22,6 +22,12 @@
 //! flags handed down through macro arguments, macro bodies); absolute oracle: identical to the
 //! bare flag (step list, typed parameters, apply results), which itself must do what the
 //! documentation says (closed form for addone definitions, set in ctx.params, observable).
+//!
+//! Part 4 (typing under modifiers): representative ill-formed steps per error kind and their
+//! well-formed twins crossed with every modifier subset (inv, omit_fwd, omit_inv), spelling
+//! (`<`/`>` sugar included) and position (stand-alone, first/middle/last step, macro body,
+//! behind a modified macro invocation); oracle: rejected exactly as the plain stand-alone step
+//! (same error variant, same parameter named); twins: ctx.steps and ctx.params stay aligned.
 
 use geodesy::authoring::*;
 use proptest::prelude::*;
@@ -3223,6 +3229,196 @@ fn check_flag(c: &FlagCase, rec: &mut Rec) -> CaseResult {
 }
 
 // ===================================================================================
+// Part 4: the typed-parameter clauses under every modifier context of the step
+// ===================================================================================
+
+/// (step text, parameter the error must name; None = well-formed twin, error kind)
+const MSTEPS: [(&str, Option<&str>, &str); 13] = [
+    ("utm", Some("zone"), "missing-required-natural"),
+    ("c16typed int_req=-4 real_req=1.5 ser_req=1,2 txt_req=abc txts_req=a,b", Some("nat_req"), "missing-required-natural"),
+    ("c16typed nat_req=5 int_req=-4 ser_req=1,2 txt_req=abc txts_req=a,b", Some("real_req"), "missing-required-real"),
+    ("helmert x=abc", Some("x"), "non-numeric-real"),
+    ("c16typed nat_req=5 int_req=-4 real_req=abc ser_req=1,2 txt_req=abc txts_req=a,b", Some("real_req"), "non-numeric-real"),
+    ("helmert x=1:2:3:4", Some("x"), "four-element-sexagesimal"),
+    ("utm zone=-3", Some("zone"), "negative-natural"),
+    ("c16typed nat_req=-1 int_req=-4 real_req=1.5 ser_req=1,2 txt_req=abc txts_req=a,b", Some("nat_req"), "negative-natural"),
+    ("c16typed nat_req=5 int_req=-4 real_req=1.5 ser_req=1,b txt_req=abc txts_req=a,b", Some("ser_req"), "bad-series-element"),
+    ("c16typed nat_req=5 int_req=1.5 real_req=1.5 ser_req=1,2 txt_req=abc txts_req=a,b", Some("int_req"), "fractional-integer"),
+    ("utm zone=32", None, "well-formed"),
+    ("helmert x=3", None, "well-formed"),
+    ("c16typed nat_req=5 int_req=-4 real_req=1.5 ser_req=1,2 txt_req=abc txts_req=a,b", None, "well-formed"),
+];
+
+const MPOSITIONS: [&str; 8] = ["stand-alone", "first-of-2", "middle-of-3", "last-of-2", "macro-body-middle:invoked-alone", "macro-body-middle:invoked-as-last-step", "behind-modified-invocation:single-step-body", "behind-modified-invocation:pipeline-body"];
+const MSPELLINGS: [&str; 5] = ["suffix-words", "prefix-words", "sugar->+suffix", "sugar-<+prefix", "=true-suffix"];
+const M_INV: u8 = 1;
+const M_OFWD: u8 = 2;
+const M_OINV: u8 = 4;
+
+#[derive(Clone, Debug, Serialize, Deserialize)]
+struct ModCase {
+    step: String,
+    expect: Option<String>,
+    kind: String,
+    mods: u8,
+    spelling: u8,
+    position: u8,
+    def: FDef,
+    /// the unmodified stand-alone step
+    reference: FDef,
+}
+
+fn mods_name(m: u8) -> String {
+    if m == 0 {
+        return "none".into();
+    }
+    [(M_INV, "inv"), (M_OFWD, "omit_fwd"), (M_OINV, "omit_inv")].iter().filter(|(b, _)| m & b != 0).map(|(_, n)| *n).collect::<Vec<_>>().join("+")
+}
+
+/// (step, mods, spelling, position) of every meaningful combination
+fn mod_index() -> Vec<(u8, u8, u8, u8)> {
+    let mut v = vec![];
+    for s in 0..MSTEPS.len() as u8 {
+        for pos in 0..MPOSITIONS.len() as u8 {
+            for mods in 0..8u8 {
+                // omit_* is documented for pipeline steps only
+                if pos == 0 && mods & (M_OFWD | M_OINV) != 0 {
+                    continue;
+                }
+                for sp in 0..MSPELLINGS.len() as u8 {
+                    let has_pred = !matches!(pos, 0 | 1);
+                    let ok = match sp {
+                        0 => true,
+                        1 | 4 => mods != 0,
+                        2 => has_pred && mods & M_OINV != 0,
+                        3 => has_pred && mods & M_OFWD != 0,
+                        _ => false,
+                    };
+                    if ok {
+                        v.push((s, mods, sp, pos));
+                    }
+                }
+            }
+        }
+    }
+    v
+}
+
+fn mod_case(ix: (u8, u8, u8, u8)) -> ModCase {
+    let (s, mods, sp, pos) = ix;
+    let (step, expect, kind) = MSTEPS[s as usize];
+    // the modified item: the step itself, or the invocation of the macro that holds it
+    let item = if pos >= 6 { "c16m:t" } else { step };
+    let mut m = mods;
+    let sep = match sp {
+        2 => {
+            m &= !M_OINV;
+            " > "
+        }
+        3 => {
+            m &= !M_OFWD;
+            " < "
+        }
+        _ => " | ",
+    };
+    let words: Vec<&str> = [(M_INV, "inv"), (M_OFWD, "omit_fwd"), (M_OINV, "omit_inv")].iter().filter(|(b, _)| m & b != 0).map(|(_, n)| *n).collect();
+    let modified = match sp {
+        0 | 2 => std::iter::once(item.to_string()).chain(words.iter().map(|w| w.to_string())).collect::<Vec<_>>().join(" "),
+        1 | 3 => words.iter().map(|w| w.to_string()).chain(std::iter::once(item.to_string())).collect::<Vec<_>>().join(" "),
+        _ => std::iter::once(item.to_string()).chain(words.iter().rev().map(|w| format!("{w}=true"))).collect::<Vec<_>>().join(" "),
+    };
+    let mac = |body: String| vec![("c16m:t".to_string(), body)];
+    let (macros, text) = match pos {
+        0 => (vec![], modified),
+        1 => (vec![], format!("{modified} | helmert y=2")),
+        2 => (vec![], format!("helmert y=2{sep}{modified} | helmert z=3")),
+        3 => (vec![], format!("helmert y=2{sep}{modified}")),
+        4 => (mac(format!("helmert y=2{sep}{modified} | helmert z=3")), "c16m:t".to_string()),
+        5 => (mac(format!("helmert y=2{sep}{modified} | helmert z=3")), "helmert z=1 | c16m:t".to_string()),
+        6 => (mac(step.to_string()), format!("helmert z=1{sep}{modified}")),
+        _ => (mac(format!("helmert y=2 | {step}")), format!("helmert z=1{sep}{modified} | helmert z=3")),
+    };
+    ModCase { step: step.into(), expect: expect.map(|e| e.to_string()), kind: kind.into(), mods, spelling: sp, position: pos, def: FDef { macros, text }, reference: FDef { macros: vec![], text: step.into() } }
+}
+
+/// (variant name of the error, parameter it names)
+fn error_shape(e: &Error) -> (String, Option<String>) {
+    let d = format!("{e:?}");
+    let variant = d.split(['(', ' ', '{']).next().unwrap_or("").to_string();
+    let named = match e {
+        Error::BadParam(k, _) | Error::MissingParam(k) => Some(k.clone()),
+        _ => None,
+    };
+    (variant, named)
+}
+
+fn check_mod(c: &ModCase, rec: &mut Rec) -> CaseResult {
+    let show = |what: &str| format!("{what}\n  step {:?} ({}), modifiers {}, spelling {}, position {}\n  definition: {}", c.step, c.kind, mods_name(c.mods), MSPELLINGS[c.spelling as usize], MPOSITIONS[c.position as usize], fdef_show(&c.def));
+    let tag = format!("typed-under-modifiers:{}", c.kind);
+    let obs = |d: &FDef| fobserve(d).map_err(|(k, m)| Failure { key: k, msg: show(&format!("{}: {m}", fdef_show(d))) });
+    let reference = obs(&c.reference)?;
+    let variant = obs(&c.def)?;
+    rec.class(&format!("kind:{}", c.kind));
+    rec.class(&format!("modifiers:{}", mods_name(c.mods)));
+    rec.class(&format!("modifier-spelling:{}", MSPELLINGS[c.spelling as usize]));
+    rec.class(&format!("position:{}", MPOSITIONS[c.position as usize]));
+    if c.mods & (M_OFWD | M_OINV) == (M_OFWD | M_OINV) {
+        rec.nontrivial(&(&c.def.text, &c.def.macros));
+    }
+    match &c.expect {
+        Some(p) => {
+            // absolute: the plain step is rejected naming the parameter
+            let want = match reference {
+                Err(e) => {
+                    let sh = error_shape(&e);
+                    vensure!(sh.1.as_deref() == Some(p.as_str()), format!("{tag}:reference-error-does-not-name-parameter"), "{}", show(&format!("the plain step is rejected with {e:?}, which does not name {p:?}")));
+                    sh
+                }
+                Ok(_) => vfail!(format!("{tag}:reference-accepted"), "{}", show(&format!("the plain stand-alone step is accepted although {p:?} is missing or malformed"))),
+            };
+            match variant {
+                Ok(o) => vfail!(format!("{tag}:accepted"), "{}", show(&format!("accepted (steps {:?}), although the plain step is rejected with {want:?}: the parameters of a step are typed whatever its modifiers", o.steps))),
+                Err(e) => {
+                    let got = error_shape(&e);
+                    vensure!(got == want, format!("{tag}:different-error"), "{}", show(&format!("rejected with {e:?}, the plain step with {want:?}")));
+                    rec.class("rejected-as-the-plain-step");
+                }
+            }
+        }
+        None => {
+            vensure!(reference.is_ok(), format!("{tag}:reference-rejected"), "{}", show(&format!("the plain step is rejected: {:?}", reference.as_ref().err())));
+            let o = match variant {
+                Ok(o) => o,
+                Err(e) => vfail!(format!("{tag}:rejected"), "{}", show(&format!("a well-formed step is rejected under these modifiers: {e:?}"))),
+            };
+            // ctx.steps and ctx.params(op, i) describe the same steps
+            vensure!(o.steps.len() == o.params.len(), format!("{tag}:steps-params-count"), "{}", show(&format!("ctx.steps lists {} steps {:?}, ctx.params(op, i) exists for {} indices", o.steps.len(), o.steps, o.params.len())));
+            for (i, (st, p)) in o.steps.iter().zip(&o.params).enumerate() {
+                // a macro invocation is listed under the macro's name, its parameters under the name of the body's operator
+                vensure!(st.0.contains(':') || p.starts_with(&format!("{:?} flags", st.0)), format!("{tag}:steps-params-name"), "{}", show(&format!("step {i} is {:?} but ctx.params(op, {i}) is {p}", st.0)));
+            }
+            let expected = match c.position {
+                0 => Some((1usize, 0usize)),
+                1 => Some((2, 0)),
+                2 => Some((3, 1)),
+                3 => Some((2, 1)),
+                _ => None,
+            };
+            if let Some((n, k)) = expected {
+                vensure!(o.steps.len() == n, format!("{tag}:step-count"), "{}", show(&format!("{n} steps written, ctx.steps lists {:?}", o.steps)));
+                let name = c.step.split(' ').next().unwrap_or("");
+                vensure!(o.steps[k].0 == name, format!("{tag}:step-name"), "{}", show(&format!("step {k} must be {name:?}: {:?}", o.steps)));
+                for (b, w) in [(M_INV, "inv"), (M_OFWD, "omit_fwd"), (M_OINV, "omit_inv")] {
+                    vensure!(o.steps[k].1.iter().any(|x| x == w) == (c.mods & b != 0), format!("{tag}:step-modifiers"), "{}", show(&format!("modifier {w} of step {k}: {:?}", o.steps)));
+                }
+            }
+            rec.class("steps-and-params-aligned");
+        }
+    }
+    Ok(())
+}
+
+// ===================================================================================
 // main
 // ===================================================================================
 
@@ -3314,6 +3510,17 @@ fn main() {
         nf,
         move |i| flag_case(&sites, index[i]),
         check_flag,
+    );
+
+    // 8. typed-parameter clauses x modifier contexts x positions
+    let mindex = mod_index();
+    let nm = mindex.len();
+    run.enumerate(
+        "typed-errors-under-modifiers",
+        "10 ill-formed steps (missing required natural / real, non-numeric real, 4-element sexagesimal, negative natural, bad series element, fractional integer; utm, helmert and the harness operator) and 3 well-formed twins x every subset of the modifiers inv, omit_fwd, omit_inv x 5 spellings (suffix words, prefix words, `>` sugar + suffix, `<` sugar + prefix, =true) x 8 positions (stand-alone [none/inv only], first of 2, middle of 3, last of 2, middle of a macro body invoked alone / as last step, behind a macro invocation that carries the modifiers with a single-step / pipeline body). Oracle (absolute): the plain stand-alone step is rejected with an error naming the parameter, and the definition is rejected with the same error variant naming the same parameter under every modifier context; the well-formed twin is accepted, ctx.steps and ctx.params(op, i) have the same count and the same names step by step, and (elementary positions) the written number of steps, the step name and exactly the written modifiers are reported; non-trivial = the step carries both omit_fwd and omit_inv",
+        nm,
+        move |i| mod_case(mindex[i]),
+        check_mod,
     );
 
     run.finish("definition ASTs rendered with independent layouts judged against a reference tokenizer model and the canonical rendering (steps, parsed parameters, bit-identical behaviour); typed parameter values judged against a reference parser written from the documentation (exact rational arithmetic for sexagesimal values); every spelling of presence of a flag (bare, =true in any case, explicit empty value) at every place a flag is read must equal the bare flag, whose documented effect is checked absolutely");
